@@ -156,7 +156,7 @@ def rule_field_census(rep, prog, adt, field):
                         if s["rv"]["k"] in ("ref", "rawptr") and s["rv"].get("mut") and s["rv"]["pl"] is pl:
                             root = prog.by_id.get(b.root, b)
                             sig = root.j.get("sig", "")
-                            rep("R8.4.mut_access", strip_generics(b.id), "&mut " in sig.split(',')[0] or "&'a mut" in sig.split(',')[0], b.where(s["ln"]),
+                            rep("R8.4.mut_access", strip_generics(b.id), re.search(r"fn\(&('\w+ )?mut ", sig) is not None, b.where(s["ln"]),
                                 f"&mut borrow of {adt}.{field} requires a &mut self receiver (sig: {sig})")
         if touches:
             n += 1
